@@ -495,6 +495,7 @@ pub fn read_sync_stub(store: &Store, last_id: Option<&Scru128Id>, limit: Option<
         assert(reload_frames().take(it.index@ as int + 1).last() == frame);
     }
 //@@ header
+#[verifier::loop_isolation(false)]
 fn new_reload_loop(store: Store, Tracked(st): Tracked<&mut St>)
     ensures
         // after open: exactly the ids of the xs.context frames the zero-context read returned are registered on top
@@ -557,6 +558,7 @@ pub open spec fn head_gc_post(kvs_rev: Seq<Kv>, keep: u32, old_st: &St, new_st: 
         }
     }
 //@@ header
+#[verifier::loop_isolation(false)]
 fn gc_head_arm(store: &Store, Tracked(st): Tracked<&mut St>, context_id: Scru128Id, topic: String, keep: u32)
     requires store_wf(store), stream_wf(old(st)), vstd::utf8::encode_utf8(topic@).len() <= MAX_TOPIC(),
         forall|k: Seq<u8>| old(st).parts.idx_topic.contains_key(k) ==> k.len() >= 16,
